@@ -138,6 +138,29 @@ def rule3_signal(ctx, fl):
                                   same_value(f, f.ap(d.args[0]).root, cond) for d in deqs),
                'waiters are taken from the condition variable\'s own queue', loc=(deqs[0].loc if deqs else f.loc))
         ctx.ob('C05.3', '%s: has push' % name, bool(pushes), 'a dequeued waiter is made runnable', loc=f.loc)
+        rets = [r for r in f.order if r.op == 'ret']
+        reach = f.reachable_from(f.entry_inst(), blocked=deqs, include_start=True)
+        # a return that skips the dequeue is acceptable only where the queue's head was just read as NULL (nobody is blocked)
+        heads = [l for l in f.order if l.op == 'load' and f.field(l) == 'myth_sleep_queue_t.head' and
+                 'myth_cond.sleep_q' in f.ap(l.ops[0]).fields and same_value(f, f.ap(l.ops[0]).root, cond)]
+        cut = set((br.block.id, nl) for l in heads for br, nn, nl in lib.null_tests(f, l.id) if nn != nl)
+        dq_blocks = set(d.block.id for d in deqs)
+        seen_b, work, skipping = set(), [0], []
+        while work:
+            b = work.pop()
+            if b in seen_b:
+                continue
+            seen_b.add(b)
+            if b in dq_blocks:
+                continue            # the dequeue attempt is on this path
+            if any(x.op == 'ret' for x in f.blocks[b].insts):
+                skipping.append(b)
+            for s_ in f.succs(f.blocks[b]):
+                if (b, s_) not in cut:
+                    work.append(s_)
+        ctx.ob('C05.3', '%s: every call looks at the queue' % name, bool(deqs) and not skipping,
+               'no path returns without a dequeue attempt: a signal issued while a thread is blocked on the condition variable resumes '
+               'one (a "somebody is already on the way" shortcut drops the signal for the remaining waiters)', loc=f.loc)
         for p in pushes:
             src = [d for d in deqs if same_value(f, p.args[1], d.id)]
             ok = bool(src)
@@ -216,6 +239,8 @@ def run(ctx):
 
 SYNC = 'src/myth_sync_func.h'
 MUTANTS = [
+    {'name': 'signal returns early on a pending-wake flag (seed3 C05/m3)', 'expect': 'C05.3',
+     'edits': [(SYNC, "static inline int myth_cond_signal_body(myth_cond_t * cond) {\n  myth_wake_if_any_from_queue(cond->sleep_q, 0, 0);", "static inline int myth_cond_signal_body(myth_cond_t * cond) {\n  static volatile int wake_pending;\n  if (wake_pending) return 0;\n  myth_wake_if_any_from_queue(cond->sleep_q, 0, 0);")]},
     {'name': 'native myth_cond_signal forwards to broadcast', 'expect': 'C05.5',
      'edits': [('src/myth_if_native.c', "  return myth_cond_signal_body(cond);", "  return myth_cond_broadcast_body(cond);")]},
     {'name': 'callback releases the mutex only when none was handed over (sweep M0202)', 'expect': 'C05.1',
